@@ -268,7 +268,13 @@ func (e *streamExec) prepareToken() bool {
 		}
 	}
 	// buffered decode of the complete bytes = what every stream read must equal
+	keepRef := string(ref)
 	tk, dc, derr := e.decodeToken(nil, ref)
+	if keepRef != string(ref) {
+		o.Violate("C18", "input-bytes-changed", "the buffered decoder changed the byte slice it was given (the same bytes can no longer be read as a stream)", map[string]string{"api": e.p.API})
+		ref = []byte(keepRef)
+		e.ref = ref
+	}
 	if derr != nil || isNilTok(tk) {
 		o.Logf("buffered decode failed (reported under C07 elsewhere): %v", derr != nil)
 		return false
@@ -556,8 +562,14 @@ func (e *streamExec) prepareContainer() bool {
 	e.ref = ref
 	// buffered decode of the normalised bytes
 	var rd container.Reader
+	keepRef := string(ref)
 	if guard(o, "container.From:"+e.p.API, func() { rd, err = e.readContainer(nil, ref) }) {
 		return false
+	}
+	if keepRef != string(ref) {
+		o.Violate("C18", "input-bytes-changed", "the byte-slice container reader changed the byte slice it was given (the same bytes can no longer be read as a stream)", map[string]string{"api": e.p.API})
+		ref = []byte(keepRef)
+		e.ref = ref
 	}
 	if err != nil {
 		// reported under C17 by the container scenario; nothing to compare streams with
